@@ -136,6 +136,14 @@ def run_case(case):
         out.append(('handshake:openconfirm:%s' % sim.state, 'after valid OPEN (hold %d) state is %s' % (prop, sim.state)))
         return out
     t_oc = r.now
+    if case.get('second_open') is not None:
+        # the peer repeats its OPEN with another hold time while the agent waits for the KEEPALIVE; an agent that lets it pass
+        # (no answer, still OpenConfirm) keeps the timers of the first negotiation
+        mark2 = sim.mark()
+        r.peer_send(c, ss.peer_open(sim, hold=case['second_open']))
+        r.settle(fire_due=True)
+        if sim.state != 'OPENCONFIRM' or any(k in ('write', 'loseConnection') for _, k, cid, _ in sim.since(mark2)):
+            return out          # the agent reacted to the second OPEN (FSM error / Cease): another story
     last = t_oc                   # last arrival that restarts the hold timer
     dead_at = None
     end = None
@@ -269,6 +277,7 @@ case_strategy = st.fixed_dictionaries({
     'ka_delay': st.sampled_from(['0', '0', 'small', 'H/3', 'H/2', '2H/3', 'H-e']),
     'phase': st.sampled_from(['est', 'est', 'est', 'est', 'opensent', 'openconfirm']),
     'eps': st.sampled_from([0.001, 1.0]),
+    'second_open': st.sampled_from([None, None, None, 0, 3, 9, 65535]),
     'prev': st.one_of(st.none(), st.none(), st.fixed_dictionaries({
         'prop': st.sampled_from(HOLDS), 'end': st.sampled_from(['stop-start', 'notif-ver', 'marker', 'close'])})),
     'schedule': st.one_of(st.lists(arrival, max_size=8), st.lists(arrival, min_size=15, max_size=30))})
